@@ -2,8 +2,41 @@ import Dnp3.Driver.Util
 import Dnp3.Model.Outstation
 namespace Dnp3.Driver
 
+def ctlKindName : CtlKind → String
+  | .select => "select" | .sbo => "operate sbo" | .dop => "operate do" | .donr => "operate donr"
+
+def fkName : FreezeKind → String
+  | .immediate => "immediate" | .clear => "clear"
+
+def cbStr : Cb → String
+  | .beginFragment => "begin_fragment"
+  | .endFragment => "end_fragment"
+  | .control k g v idx obj st => s!"{ctlKindName k} {ctlText g v idx obj} -> {st}"
+  | .writeTime t => s!"write_time {t}"
+  | .clearRestartIin => "clear_restart_iin"
+  | .coldRestart => "cold_restart"
+  | .warmRestart => "warm_restart"
+  | .freezeAll k => s!"freeze all {fkName k}"
+  | .freezeRange a b k => s!"freeze {a}-{b} {fkName k}"
+  | .beginConfirm => "begin_confirm"
+  | .eventCleared id => s!"event_cleared {id}"
+  | .endConfirm a b c => s!"end_confirm {a} {b} {c}"
+  | .broadcast f act => s!"broadcast {f} " ++ (match act with
+      | .processed => "processed" | .ignoredByConfig => "ignored_by_config"
+      | .badHeaders => "bad_headers" | .unsupported => "unsupported")
+  | .solWait e => s!"sol_wait {e}"
+  | .solTimeout e => s!"sol_timeout {e}"
+  | .solConfirmed e => s!"sol_confirmed {e}"
+  | .solNewRequest => "sol_new_request"
+  | .solWrongSeq e q => s!"sol_wrong_seq {e} {q}"
+  | .unexpectedConfirm u q => s!"unexpected_confirm {if u then 1 else 0} {q}"
+  | .unsolWait q => s!"unsol_wait {q}"
+  | .unsolTimeout q r => s!"unsol_timeout {q} {if r then 1 else 0}"
+  | .unsolConfirmed q => s!"unsol_confirmed {q}"
+  | .modelFuelExhausted => "model-fuel-exhausted"
+
 def ooutStr : OOut → String
-  | .cb s => s!"cb {s}"
+  | .cb c => s!"cb {cbStr c}"
   | .tx dst b => s!"tx {dst} {toHex b}"
   | .txLink c d s => s!"txlink {c} {d} {s}"
   | .line s => s
